@@ -168,6 +168,7 @@ pub fn builder_case(case: &Value) -> Value {
 }
 
 pub fn validate_case(case: &Value) -> Value {
+    // (also used by mode `gen` for the determinism property)
     let types = match reg::from_a1(&case["reg"]) {
         Ok(t) => t,
         Err(e) => return json!({"setup": e}),
